@@ -13,6 +13,8 @@ Proved for every payload, every split into Write calls (no bound on sizes):
   * `xerial_unframed_single`    unframed mode emits exactly one block: `enc payload`
   * `touch_exclusive`, `put_before_reset_counterexample`, `gen_close_order`   Put is the last touch (model + extracted
                                 statement order of every Close method)
+  * `cfg_respected`, `shared_pool_counterexample`, `gen_pool_keys`   the pool key includes the configuration a pooled
+                                object keeps (model + extracted pool ownership per NewReader/NewWriter)
   * `pool_inv`, `pool_no_sharing`, `close_idempotent`   pool protocol over all op sequences incl. repeated Close;
                                 `double_close_counterexample` for a Close that keeps its object (seeded C16-m2)
   * `reset_fresh`               a recycled reader/writer starts from the same state as a new one, whatever it
@@ -34,6 +36,7 @@ import KafkaVerif.Lemmas.XerialReader
 import KafkaVerif.Lemmas.XerialIO
 import KafkaVerif.Gen.RecordConsts
 import KafkaVerif.Gen.CodecClose
+import KafkaVerif.Gen.CodecPools
 
 namespace KV.Props.C16
 open KV KV.RW KV.Model.Xerial KV.Spec.Xerial
@@ -306,6 +309,31 @@ what makes `close` an atomic, idempotent event of the protocol model above -/
 theorem gen_close_order :
     Gen.CodecClose.closeFacts.length = 8 ∧
     Gen.CodecClose.closeFacts.all (fun f => f.2.1 && f.2.2.1 && f.2.2.2) = true := by decide
+
+open Model.CfgPool in
+/-- pools and configuration: when every pool either belongs to one configuration (the pool key includes the options a
+pooled object keeps) or its users re-apply their options after Get, then after EVERY sequence of acquisitions (from
+the pool or fresh) and Closes, every live wrapper works with an object configured exactly as requested — whatever
+other configurations of the same codec kind were used before -/
+theorem cfg_respected (rp : Nat → Bool) (es : List Ev) (s : St) (hp : policy rp es = true)
+    (h : run Model.CfgPool.init es = some s) : ∀ hd ∈ s.handles, hd.obj.baked = hd.cfg :=
+  fun hd hm => ((Model.CfgPool.inv_run rp es _ s hp (Model.CfgPool.inv_init rp) h).1 hd hm).1
+
+open Model.CfgPool in
+/-- the seeded defect C16-m5 (one package-level pool for writers that keep their construction level): a BestSpeed
+wrapper is handed the writer a BestCompression wrapper put back -/
+theorem shared_pool_counterexample :
+    ∃ s hd, run Model.CfgPool.init [.acquire 0 9 true false, .close 0, .acquire 0 1 true false] = some s
+      ∧ hd ∈ s.handles ∧ hd.cfg = 1 ∧ hd.obj.baked = 9 := by
+  refine ⟨_, ⟨0, 1, ⟨0, 9⟩⟩, rfl, ?_, rfl, rfl⟩
+  decide
+
+/-- extracted on every run from NewReader / NewWriter of the 4 pooled codecs: whenever a new object is constructed
+from the Codec value's options (gzip level, zstd level), the pool is a field of that Codec value, or the options
+are assigned again after Get (snappy framing / encoder): the premise `policy` of `cfg_respected` -/
+theorem gen_pool_keys :
+    Gen.CodecPools.poolFacts.length = 8 ∧
+    Gen.CodecPools.poolFacts.all (fun f => !f.2.2.1 || f.2.1 || f.2.2.2) = true := by decide
 
 open Model.Pool in
 /-- `Close` is idempotent: closing a wrapper again changes nothing -/
